@@ -439,3 +439,6 @@ pub fn fo_groups<F: Future>(
 pub fn order_peek<F>(w: &OrderWrapperPub<F>) -> (&F, usize) {
     (&w.data, w.index)
 }
+
+/// `ForEachConcurrent` is not nameable from outside the crate
+pub use crate::buffered::ForEachConcurrent;
